@@ -87,6 +87,10 @@ Fixpoint set_nth {A} (n : nat) (v : A) (l : list A) : list A :=
 Definition raise_shared (id : nat) (tb : list (list nat)) (k : nat) : list (list nat) :=
   set_nth k [id] tb.
 
+(* F12: "raise out_err" on an instance that already has a traceback prepends the new frames *)
+Definition raise_shared_F12 (id : nat) (tb : list (list nat)) (k : nat) : list (list nat) :=
+  set_nth k (id :: nth k tb []) tb.
+
 (* the events a server observes for this request *)
 Definition response := list event.
 
@@ -96,6 +100,10 @@ Definition events_of (r : wsgi_res) : response :=
   | WsEscaped ev => ev
   | WsOutOfFuel => []
   end.
+
+Section Raise.
+(* how BaseRequest._raise changes the traceback chains: [raise_shared] (the code) or [raise_shared_F12] *)
+Variable raise_rule : nat -> list (list nat) -> nat -> list (list nat).
 
 (* after the cells hold [ts1]: routing, hooks, handler, casting, start_response *)
 Definition serve_decoded (app : app_static) (ts1 : tstate) (r : request) (path : str) : response * tstate :=
@@ -109,7 +117,7 @@ Definition serve_decoded (app : app_static) (ts1 : tstate) (r : request) (path :
   let res := wsgi_tail env (a_eh app) evH st o in
   (events_of res,
    mkT (t_req ts1) (match res with WsOk _ _ st' _ => st' | _ => st end)
-       (fold_left (raise_shared (q_id r)) raised (t_tb ts1))).
+       (fold_left (raise_rule (q_id r)) raised (t_tb ts1))).
 
 (* the early return of _handle: HTTPError(400, ...), no hooks, no routing; the
    error page is rendered from the cells as they are *)
@@ -119,7 +127,7 @@ Definition serve_bad_path (app : app_static) (ts1 : tstate) (r : request) : resp
   (events_of res,
    mkT (t_req ts1) (match res with WsOk _ _ st _ => st | _ => t_resp ts1 end) (t_tb ts1)).
 
-Definition serve (app : app_static) (ts : tstate) (r : request) : response * tstate :=
+Definition serve_gen (app : app_static) (ts : tstate) (r : request) : response * tstate :=
   (* request.__init__(environ); response.__init__(): on the regular path
      (ombott.py:275-276) and, since the fix F11, before the early return too *)
   let ts1 := mkT (Some r) st_init (t_tb ts) in
@@ -128,12 +136,16 @@ Definition serve (app : app_static) (ts : tstate) (r : request) : response * tst
   | Some path => serve_decoded app ts1 r path
   end.
 
-Fixpoint run (app : app_static) (ts : tstate) (h : list request) : list response * tstate :=
+Fixpoint run_gen (app : app_static) (ts : tstate) (h : list request) : list response * tstate :=
   match h with
   | [] => ([], ts)
-  | r :: t => let '(resp, ts1) := serve app ts r in
-              let '(rs, ts2) := run app ts1 t in (resp :: rs, ts2)
+  | r :: t => let '(resp, ts1) := serve_gen app ts r in
+              let '(rs, ts2) := run_gen app ts1 t in (resp :: rs, ts2)
   end.
+End Raise.
+
+Definition serve := serve_gen raise_shared.
+Definition run := run_gen raise_shared.
 
 (* per-request objects reachable from the application after the history:
    the environ in the request cell (its input stream unless it was replaced by
@@ -152,12 +164,12 @@ Definition alive (ts : tstate) : list nat :=
 Definition serve_F11 (app : app_static) (ts : tstate) (r : request) : response * tstate :=
   match decode_path (q_raw r) with
   | None => serve_bad_path app ts r                              (* cells still hold the previous request *)
-  | Some path => serve_decoded app (mkT (Some r) st_init (t_tb ts)) r path
+  | Some path => serve_decoded raise_shared app (mkT (Some r) st_init (t_tb ts)) r path
   end.
 
-(* F12: "raise out_err" on an instance that already has a traceback prepends the new frames *)
-Definition raise_shared_F12 (id : nat) (tb : list (list nat)) (k : nat) : list (list nat) :=
-  set_nth k (id :: nth k tb []) tb.
+(* F12: the chains grow *)
+Definition serve_F12 := serve_gen raise_shared_F12.
+Definition run_F12 := run_gen raise_shared_F12.
 
 (* ------------------------------------------------------------------ *)
 (* correspondence interface                                            *)
@@ -207,11 +219,18 @@ Definition beh_of (peek : bool) (cases : list hcase) (rq : request) (st : rstate
 
 Definition enc_response (r : response) : list Z := enc_list enc_event r.
 
-(* input: variant (0 = the code, 1 = F11 variant, 2 = F12 variant) ; peek ; shared count ; eh table ; cases
+(* input: 3 ; reset ; ids   (runtime-rule experiment), or
+          variant (0 = the code, 1 = F11 variant, 2 = F12 variant) ; peek ; shared count ; eh table ; cases
    output: the responses, then for each shared error its traceback owners, then the alive ids *)
 Definition corr_C09 (inp : list Z) : list Z :=
   let fuel := length inp in
   match inp with
+  | 3%Z :: reset :: ids =>
+      (* the runtime rule alone: one exception instance raised once per id, with / without
+         with_traceback(None) before each raise; output = owners of the frames in its chain *)
+      let step := if Z.eqb reset 0 then raise_shared_F12 else raise_shared in
+      enc_list (fun i => [Z.of_nat i])
+               (nth 0 (fold_left (fun tb id => step (Z.to_nat id) tb 0) ids [[]]) [])
   | variant :: pk :: nshared :: r0 =>
     match dec_list (fun l => match l with
                              | c :: r => match dec_ehspec fuel r with
@@ -227,17 +246,7 @@ Definition corr_C09 (inp : list Z) : list Z :=
         if Z.eqb variant 1 then
           fold_left (fun acc r => let '(resp, ts1) := serve_F11 app (snd acc) r in (fst acc ++ [resp], ts1))
                     reqs ([], ts_fresh app)
-        else if Z.eqb variant 2 then
-          fold_left (fun acc r =>
-                       let '(resp, ts1) := serve app (snd acc) r in
-                       let raised := snd (a_beh app r st_init) in
-                       (fst acc ++ [resp],
-                        mkT (t_req ts1) (t_resp ts1)
-                            (match decode_path (q_raw r) with
-                             | Some _ => fold_left (raise_shared_F12 (q_id r)) raised (t_tb (snd acc))
-                             | None => t_tb (snd acc)
-                             end)))
-                    reqs ([], ts_fresh app)
+        else if Z.eqb variant 2 then run_F12 app (ts_fresh app) reqs
         else run app (ts_fresh app) reqs in
       enc_list enc_response rs
       ++ enc_list (fun tb => enc_list (fun i => [Z.of_nat i]) tb) (t_tb ts)
